@@ -77,12 +77,22 @@ def _fresh(ctx, e, func, cn, rec, keyconv, depth=0):
         return 'too deep'
     prog = ctx.prog
 
+    def through_local(x):
+        # a named local holding the result (``v = sanitize(sub)``)
+        if isinstance(x, ast.Name):
+            cns = ctx.H.node_of(func, x)
+            if cns:
+                return ctx.H.subst(x, func, cns[0])
+        return x
+
     def is_rec(x):
+        x = through_local(x)
         return isinstance(x, ast.Call) and any(
             isinstance(g, Func) and g.qualname == rec.qualname
             for g in prog.resolve_call(x, func))
 
     def is_key(x):
+        x = through_local(x)
         return isinstance(x, ast.Call) and any(
             isinstance(g, Func) and g.qualname == keyconv.qualname
             for g in prog.resolve_call(x, func))
@@ -484,7 +494,10 @@ def r18_4(ctx, rc):
 
 def r18_5(ctx, rc):
     F = _util(ctx, 'is_equal')
-    sg = ctx.E.super(F, lambda g: False)
+    # private helpers of the class (a per-kind comparison split out of
+    # is_equal) are part of the comparison
+    sg = ctx.E.super(F, lambda g: g.cls == F.cls and g is not F and
+                     not g.is_public and not g.is_ctor_call)
     # every explicit `return True` was preceded by a length comparison
     for x in sg.nodes:
         if x.kind == 'out' and x.cn.kind == 'return' and isinstance(
